@@ -23,6 +23,7 @@ RULE = (
     "session is one the model offers, the reply is well-formed for the reference decoder, and gallia's own client "
     "(helpers.parse_pdu with the request as RawRequest and, when decodable, as typed request) accepts it without "
     "RequestResponseMismatch / MalformedResponse. Thorough: atheris campaign over (seed, history bytes). "
+    "DTC shards probe the DTC services in up to four sessions of thousands of models (per-model random state that only few requests read). "
     "Non-trivial: step in a non-default session or with a positive reply. Distinct by (seed, parameters, state, request)."
 )
 ASSUMPTIONS = [
